@@ -61,7 +61,11 @@ SchemaG2 == SchemaF(<<
     <<"opts", With(DictF(StringF, IntF), [default |-> DictV(<<>>)])>>,
     <<"l1", L1S>>,
     <<"ct", CtA>>,
-    <<"srv", With(PortF, [default |-> IntV(8080)])>> >>)
+    <<"srv", With(PortF, [default |-> IntV(8080)])>>,
+    \* sensitive scalars (and a secure field, whose storage is text) get their option like any other
+    <<"api_key", With(StringF, [sensitive |-> TRUE])>>,
+    <<"max_conn", With(IntF, [sensitive |-> TRUE, default |-> IntV(3)])>>,
+    <<"on", With(BoolF, [sensitive |-> TRUE])>> >>)
 \* a single nested level only, booleans only / nothing with an option at the root
 SchemaG3 == SchemaF(<< <<"tags", With(ListF(StringF), [default |-> ListV(<<>>)])>>,
                        <<"l3", L3S>>, <<"virt", VirtualF>> >>)
